@@ -94,7 +94,7 @@ type SiteAssert struct {
 
 var directives = map[string]bool{
 	"requires": true, "ensures": true, "let": true, "modifies": true, "nopanic": true, "loop": true,
-	"mode": true, "trusted": true, "before": true, "after": true, "some": true,
+	"mode": true, "trusted": true, "before": true, "after": true, "once": true, "some": true,
 }
 
 func parseContracts(src, pkgName, file string) ([]*Contract, map[string]*define, error) {
@@ -381,7 +381,7 @@ func parseContracts(src, pkgName, file string) ([]*Contract, map[string]*define,
 var rawDirectives = map[string]bool{
 	"kind": true, "effect": true, "governs": true, "ungoverned": true, "denial": true, "assume_stable": true,
 	"record_writer": true, "stream_writer": true, "pure": true, "gate": true, "note": true,
-	"expect": true, "replay": true, "first_defer": true, "balance": true, "guarded_by": true, "cursor_flow": true, "crash_atomic": true,
+	"expect": true, "replay": true, "first_defer": true, "balance": true, "guarded_by": true, "cursor_flow": true, "once": true, "crash_atomic": true,
 	"wire": true, "cursor": true, "split": true, "roundtrip": true, "anyname": true, "site": true,
 }
 
